@@ -369,12 +369,57 @@ def check(run: Run) -> None:
         if not need:
             run.finding("C09.h", "nested_input_binding_has_sampled_active_target:no-valid-test", "sampling must be limited to active inputs whose source is valid", loc=NB)
 
+    with run.obligation("C09.i", "K9", "captured outer ports are de-duplicated by SOURCE IDENTITY: WiringPortRef::same_source_as compares, per source kind, every field of the "
+                        "source record (node, path and output kind of a peered source; index, path and capture flag of a boundary source; state and path of a delayed "
+                        "one) - two same-schema projections of one outer node are two different captures, or the nested child reads the first projection for both"):
+        GW = "include/hgraph/types/graph_wiring.h"
+        fa = R.fn(run, GW, "WiringPortRef::same_source_as")
+        cn = R.Canon()
+        WANT = {   # case label -> accessor stems that must each be compared with `other.`'s
+            "Peered": ("peered_node", "peered_path", "peered_output_kind"),
+            "Boundary": ("is_captured_boundary_source", "boundary_capture_index", "boundary_arg_index", "boundary_path"),
+            "Delayed": ("delayed_state", "delayed_path"),
+        }
+        # the record structs the table was confirmed against
+        for sname, fields in (("PeeredSource", {"node", "path", "output_kind"}), ("BoundarySource", {"arg_index", "path", "captured"}), ("DelayedSource", {"state", "path"})):
+            got = {f.name for f in run.tree.struct(GW, sname).fields}
+            if got != fields:
+                run.finding("C09.i", f"{sname}:fields-changed", f"{sname} now has fields {sorted(got)} (table confirmed for {sorted(fields)}): same_source_as must compare the "
+                            "new field as well", loc=GW)
+        sw = [n_ for n_ in fa.body.walk() if isinstance(n_, C.Switch)]
+        if len(sw) != 1:
+            raise AnalysisError("anchor-vanished", f"C09.i: {len(sw)} switch statements in same_source_as")
+        stmts = sw[0].body.stmts
+        cur = None
+        texts: Dict[str, str] = {}
+        for st in stmts:
+            if isinstance(st, C.Case):
+                cur = cn(st.value).split("::")[-1] if st.value is not None else "default"
+                continue
+            if cur is not None:
+                for c in R.calls(st):
+                    if isinstance(c.fn, C.Id):
+                        texts[cur] = texts.get(cur, "") + f" {c.fn.name}()"
+                    elif isinstance(c.fn, C.Member) and isinstance(c.fn.obj, C.Id):
+                        texts[cur] = texts.get(cur, "") + f" {c.fn.obj.name}.{c.fn.name}()"
+        for label, accs in WANT.items():
+            run.count(len(accs), "C09.i")
+            txt = texts.get(label, "")
+            for a in accs:
+                if not re.search(rf"(?<![.\w]){a}\(\)", txt) or not re.search(rf"other\.{a}\(\)", txt):
+                    run.finding("C09.i", f"same_source_as:{label}:{a}-not-compared", f"same_source_as does not compare `{a}()` of the two {label} sources: different "
+                                f"sources that agree on the remaining fields are treated as one captured input", loc=fa.loc(sw[0]))
+        if run._cur is not None:
+            run._cur["sites"] = sum(len(v) for v in WANT.values())
+
 
 def HDRX(cn, tail):
     return "graph_header(graph_context(context),graph.data())." + tail
 
 
 VARIANTS = [
+    {"id": "i-capture-dedup-ignores-path", "expect": "C09.i", "edits": [{"file": "include/hgraph/types/graph_wiring.h", "find": "                    return peered_node() == other.peered_node() &&\n                           peered_path() == other.peered_path() &&\n", "replace": "                    return peered_node() == other.peered_node() &&\n"}]},
+    {"id": "i-capture-dedup-ignores-delayed-path", "expect": "C09.i", "edits": [{"file": "include/hgraph/types/graph_wiring.h", "find": "                    return delayed_state() == other.delayed_state() &&\n                           delayed_path() == other.delayed_path();", "replace": "                    return delayed_state() == other.delayed_state();"}]},
     {"id": "d4-revert-fix-reduce-rearm-in-loop-only", "expect": "C09.d4", "edits": [{"file": RT + "reduce_node.cpp", "find": "            if (earliest_future != MAX_DT) { view.graph().schedule_node(view.node_index(), earliest_future); }\n", "replace": ""}]},
     {"id": "g-returned-capture-without-base", "expect": "C09.g", "edits": [{"file": "src/hgraph/types/graph_wiring.cpp", "find": "              .parent_source_path = {captures.base_index +\n                                     captures.index_for(*output)},", "replace": "              .parent_source_path = {captures.index_for(*output)},"}]},
     {"id": "e-try-except-propagates-before-start", "expect": "C09.e", "edits": [{"file": RT + "try_except_node.cpp", "find": "            single_nested_graph_bind_output(nested, evaluation_time);\n            if (nested.context().options.start_child_on_start)\n            {\n                nested.child_graph().start(evaluation_time);\n                schedule_sampled_input_consumers(\n                    nested.child_graph(),\n                    evaluation_time,\n                    nested.context().spec.input_bindings);\n            }\n            single_nested_graph_propagate_schedule(nested);\n        }", "replace": "            single_nested_graph_bind_output(nested, evaluation_time);\n            single_nested_graph_propagate_schedule(nested);\n            if (nested.context().options.start_child_on_start)\n            {\n                nested.child_graph().start(evaluation_time);\n                schedule_sampled_input_consumers(\n                    nested.child_graph(),\n                    evaluation_time,\n                    nested.context().spec.input_bindings);\n            }\n        }"}]},
